@@ -285,6 +285,9 @@ class Repo:
                     if isinstance(vv, ast.Constant) and isinstance(vv.value, (int, float, str)) and \
                             not isinstance(vv.value, bool):
                         mod._lit_consts[k] = v
+                    elif isinstance(v, ast.Tuple) and v.elts and all(
+                            isinstance(e, ast.Constant) and isinstance(e.value, (int, float, str)) for e in v.elts):
+                        mod._lit_consts[k] = v          # an immutable tuple of literals: _INT_TYPES = ('B', 'I')
         if not mod._lit_consts:
             return {}
         local = {a.arg for a in fi.raw_node.args.posonlyargs + fi.raw_node.args.args + fi.raw_node.args.kwonlyargs}
@@ -307,6 +310,9 @@ class Repo:
                 vv = v.operand if isinstance(v, ast.UnaryOp) and isinstance(v.op, (ast.USub, ast.UAdd)) else v
                 if k.startswith('_') and not k.startswith('__') and isinstance(vv, ast.Constant) and \
                         isinstance(vv.value, (int, float, str)) and not isinstance(vv.value, bool):
+                    out[k] = v
+                elif k.startswith('_') and not k.startswith('__') and isinstance(v, ast.Tuple) and v.elts and all(
+                        isinstance(e, ast.Constant) and isinstance(e.value, (int, float, str)) for e in v.elts):
                     out[k] = v
         # not if some method assigns self._X
         for k in self._stored_attr_names():
